@@ -85,6 +85,62 @@ def relop(n, ops):
     return b
 
 
+def fold_int(e):
+    """value of an integer constant expression built from literals with + - * / % (as left by replacing a loop index by
+    its value), else None"""
+    c = const_int(e)
+    if c is not None:
+        return c
+    n = strip_casts(e)
+    while n is not None and n["k"] == "ParenExpr" and kids(n):
+        n = strip_casts(kids(n)[0])
+    if n is None or n["k"] != "BinaryOperator" or n.get("op") not in ("+", "-", "*", "/", "%"):
+        return const_int(n) if n is not None else None
+    a, b = fold_int(kids(n)[0]), fold_int(kids(n)[1])
+    if a is None or b is None or (n["op"] in ("/", "%") and (b <= 0 or a < 0)):
+        return None
+    return {"+": a + b, "-": a - b, "*": a * b, "/": a // b if b else None, "%": a % b if b else None}[n["op"]]
+
+
+def closure_expr(fn, n):
+    """the value of the closure call n as an expression over the variables of fn: the body of the lambda (of the form
+    decl* (if (c) return e;)* return e;) with its parameters replaced by the arguments.  None if n does not call a
+    closure; Undecidable if it does but cannot be read this way (captures by copy, another kind of body)"""
+    n = strip_casts(n)
+    if n is None or n["k"] != "CXXOperatorCallExpr" or n.get("op") != "()" or not kids(n):
+        return None
+    fx = strip_casts(kids(n)[0])
+    if fx is None or "lambda at" not in (fx.get("ty") or ""):
+        return None
+    where = "%s: closure %s" % (fn.nloc(n), dtable.describe(fx)[:40])
+    tu = getattr(fn, "tu", None)
+    f = tu.by_did.get(n["callee"].get("did")) if tu is not None else None
+    lam = fx if fx["k"] == "LambdaExpr" else None
+    if lam is None and ref_of(fx) is not None:
+        v = local_decl(fn, ref_of(fx))
+        init = match.strip_conv(kids(v)[0]) if v is not None and kids(v) else None
+        while init is not None and init["k"] in ("MaterializeTemporaryExpr", "CXXBindTemporaryExpr", "ExprWithCleanups", "ParenExpr") and kids(init):
+            init = match.strip_conv(kids(init)[0])
+        lam = init if init is not None and init["k"] == "LambdaExpr" else None
+    if f is None or f.body is None or lam is None or lam.get("fn") != f.did:
+        raise Undecidable(where + ": body not found")
+    if any(not c.get("byref") for c in lam.get("captures", [])):
+        raise Undecidable(where + " captures by copy")
+    args = kids(n)[1:]
+    if len(args) != len(f.params):
+        raise Undecidable(where + " called with %d arguments for %d parameters" % (len(args), len(f.params)))
+    for prm, a in zip(f.params, args):
+        if writes_to(f.body, prm["did"]) or not all(z["k"] in ("DeclRefExpr", "IntegerLiteral", "ImplicitCastExpr", "BinaryOperator", "ParenExpr",
+                                                              "ArraySubscriptExpr", "UnaryOperator", "CXXOperatorCallExpr", "MemberExpr")
+                                                    and not match.unop(z, ("++", "--")) and z.get("op") not in ASSIGN_OPS for z in walk(a)):
+            raise Undecidable(where + ": argument %s is not a plain expression" % dtable.describe(a))
+    e = dtable.stmts_as_expr([x for x in (kids(f.body) if f.body["k"] == "CompoundStmt" else [f.body])],
+                             {prm["did"]: a for prm, a in zip(f.params, args)})
+    if e is None:
+        raise Undecidable(where + ": body is not a chain of returns")
+    return e
+
+
 def conjuncts(cond):
     out = []
 
@@ -133,9 +189,10 @@ def spaceship(e, sk):
     return NotImplemented
 
 
-def seq_index(sk, e, seqs, K):
+def seq_index(sk, e, seqs, K, by_value=True):
     """i if e names the pair seqs[i] in the skeleton sk (seqs[i], *(seqs + i), *s for an iterator s over the pairs, a
-    reference local bound to one of these); the skeleton runs with seqs == 0"""
+    reference local bound to one of these), or (by_value) an object that holds a copy of that pair; the skeleton runs
+    with seqs == 0"""
     key = sk.lvalue(e)
     v = None
     if isinstance(key, tuple):
@@ -145,6 +202,11 @@ def seq_index(sk, e, seqs, K):
             v = key[1]
     if isinstance(v, int) and not isinstance(v, bool) and 0 <= v < K:
         return v
+    if by_value and key is not None:
+        # a local copy of a whole sequence (Pair c = seqs[i]; Pair others[3]; others[j] = seqs[i])
+        val = sk.load(key)
+        if isinstance(val, tuple) and len(val) == 3 and val[0] == "seq":
+            return val[1]
     return None
 
 
@@ -176,13 +238,218 @@ def _synth(like, k, ch, **kw):
     return d
 
 
+def unroll_const_for(s, limit=16):
+    """the statements executed by  for (T i = a; i < b; ++i) body  with constants a, b and a body that neither changes i
+    nor leaves the loop: the body with i replaced by a, a + 1, ...; None if s does not have this form"""
+    init, cond, inc, body = match.loop_parts(s)
+    if init is None or cond is None or inc is None or body is None or init["k"] != "DeclStmt":
+        return None
+    vs = [v for v in kids(init) if v is not None]
+    if len(vs) != 1 or vs[0]["k"] != "VarDecl" or not kids(vs[0]) or (vs[0].get("ty") or "").rstrip().endswith(("&", "*")):
+        return None
+    did, lo = vs[0]["did"], const_int(match.strip_conv(kids(vs[0])[0]))
+    c0 = strip_casts(cond)
+    d = step_of(inc, did)
+    if lo is None or d is None or c0 is None or c0["k"] != "BinaryOperator":
+        return None
+    op, l, r = c0.get("op"), kids(c0)[0], kids(c0)[1]
+    if ref_of(r) == did and const_int(l) is not None:
+        l, r, op = r, l, {"<": ">", ">": "<", "<=": ">=", ">=": "<=", "!=": "!=", "==": "=="}.get(op)
+    if ref_of(l) != did or const_int(r) is None or op not in (("<", "<=", "!=") if d > 0 else (">", ">=", "!=")):
+        return None
+    if d < 0 and "unsigned" in (vs[0].get("ty") or "") and op != "!=":
+        return None                      # i >= 0 on an unsigned index does not end the loop
+    # the values of i for which the body runs: lo, lo + d, ... up to the bound
+    end = const_int(r) + (d if op in ("<=", ">=") else 0)
+    if (end - lo) * d < 0 or abs(end - lo) > limit or writes_to(body, did):
+        return None
+    hi = end
+    if any(z["k"] in ("BreakStmt", "ContinueStmt", "ReturnStmt", "GotoStmt", "LabelStmt", "LambdaExpr", "DeclStmt") for z in walk(body)):
+        return None
+
+    def repl(n, v):
+        if n is None:
+            return None
+        if n["k"] == "DeclRefExpr" and n["ref"]["id"] == did:
+            return {"k": "IntegerLiteral", "val": v, "ty": "int", "id": None, "l": n.get("l")}
+        if "ch" in n:
+            n = dict(n, ch=[repl(c, v) for c in n["ch"]])
+            n.pop("cval", None)
+        return n
+    out = []
+    for v in range(lo, hi, d):
+        b = repl(body, v)
+        out += [x for x in kids(b) if x is not None] if b["k"] == "CompoundStmt" else [b]
+    return out
+
+
+def bind_this(e, obj):
+    """e (an expression of a member function) with *this replaced by the object expression obj"""
+    if e is None:
+        return None
+    if e["k"] == "This":
+        return obj
+    if "ch" not in e:
+        return e
+    out = dict(e, ch=[bind_this(c, obj) for c in e["ch"]])
+    if e["k"] == "MemberExpr" and e.get("arrow") and kids(e) and strip_casts(kids(e)[0]) is not None and strip_casts(kids(e)[0])["k"] == "This":
+        out["arrow"] = False
+    return out
+
+
+def op_table34(fn):
+    """order.op_table (truth table of a comparison operator(bi1, bi2) over (sup1, sup2, c12 = comp(*bi1, *bi2), c21 =
+    comp(*bi2, *bi1))) that also reads a member function of the iterator class called on one of the two operands
+    (bi1.is_sup()) as its body on that operand"""
+    p1, p2 = fn.params[0]["did"], fn.params[1]["did"]
+
+    def which(e):
+        r = ref_of(e)
+        return 1 if r == p1 else 2 if r == p2 else None
+
+    def atomize(n, run):
+        n0 = strip_casts(n)
+        if n0 is not None and n0.get("member_call") and kids(n0) and which(kids(n0)[0]) and getattr(fn, "tu", None) is not None:
+            sub = dtable.inline_call(fn, n0)
+            if sub is not None:
+                return bool(run.truth(bind_this(sub, strip_casts(kids(n0)[0]))))
+        b = match.binop(n, ("==", "!="))
+        if b:
+            fa, fb = match.field_of(b[1]), match.field_of(b[2])
+            if fa and fb and {fa[1], fb[1]} == {"current", "end_"} and which(fa[0]) and which(fa[0]) == which(fb[0]):
+                return ("sup%d" % which(fa[0]), b[0] == "!=")
+        fc = match.functor_call(n)
+        if fc and len(fc[1]) == 2:
+            f = match.field_of(fc[0])
+            if f and f[1] == "comp_":
+                ws = []
+                for a in fc[1]:
+                    d = match.deref_of(a)
+                    ws.append(which(d) if d is not None else None)
+                if ws == [1, 2]:
+                    return ("c12", False)
+                if ws == [2, 1]:
+                    return ("c21", False)
+                raise Undecidable("%s: comparator applied to unexpected operands" % fn.nloc(n))
+        return None
+    table = {}
+    for s1 in (False, True):
+        for s2 in (False, True):
+            for c12 in (False, True):
+                for c21 in (False, True):
+                    r = dtable.Run(atomize, {"sup1": s1, "sup2": s2, "c12": c12, "c21": c21}, fn)
+                    try:
+                        r.stmt(fn.body)
+                        raise Undecidable("%s: comparison operator without return" % fn.loc)
+                    except dtable._Stop as st:
+                        if st.kind != "return" or st.payload[0] is None:
+                            raise Undecidable("%s: unexpected control flow in comparison operator" % fn.loc)
+                        table[(s1, s2, c12, c21)] = r.truth(st.payload[0])
+                    except dtable._Need as nd:
+                        raise Undecidable("%s: unknown atom %s" % (fn.loc, nd.key))
+    return table
+
+
+class MergeProgram34(order.MergeProgram):
+    """order.MergeProgram that also finds the k cursors when they are the elements of one local array
+    (iterator seq[k] = { iterator(seqs[0].first, seqs[0].second, comp), ... }): seq[c] with a constant c then names a
+    cursor; any other use of the array is not a cursor for the automaton (and therefore not understood)"""
+
+    def __init__(self, fn, tu):
+        self.seqarr, self.arrmap = None, {}
+        try:
+            super().__init__(fn, tu)
+            return
+        except Undecidable:
+            if not hasattr(self, "seqvar") or self.seqvar or not hasattr(self, "prog"):
+                raise
+            if not self.find_array(fn):
+                raise
+        self.k = len(self.arrmap)
+        self.ops = {}
+
+    def find_array(self, fn):
+        for s in kids(fn.body):
+            if s is None or s["k"] != "DeclStmt":
+                continue
+            for v in kids(s):
+                ty = (v.get("ty") or "").rstrip() if v is not None else ""
+                init = kids(v)[0] if v is not None and v.get("k") == "VarDecl" and kids(v) else None
+                if init is None or init["k"] != "InitListExpr" or not ty.endswith("]") or ty.count("[") < 1:
+                    continue
+                amap = {}
+                for pos, el in enumerate(kids(init)):
+                    e = el
+                    while e is not None and e["k"] in ("ExprWithCleanups", "MaterializeTemporaryExpr", "CXXBindTemporaryExpr",
+                                                       "CXXFunctionalCastExpr", "ParenExpr") and kids(e):
+                        e = kids(e)[0]
+                    e = strip_casts(e)
+                    idx = []
+                    if e is not None and "callee" in e and e["k"] in ("CXXConstructExpr", "CXXTemporaryObjectExpr"):
+                        for a in kids(e)[:2]:
+                            f = match.field_of(a)
+                            q = match.index_parts(f[0]) if f else None
+                            if q and ref_of(q[0]) == self.seqs_param and const_int(q[1]) is not None:
+                                idx.append((const_int(q[1]), f[1]))
+                    if len(idx) == 2 and idx[0][0] == idx[1][0] and (idx[0][1], idx[1][1]) == ("first", "second"):
+                        amap[pos] = idx[0][0]
+                    elif any(z["k"] == "DeclRefExpr" and z["ref"]["id"] == self.seqs_param for z in walk(el)):
+                        raise Undecidable("%s: element %d of %s is not built from (seqs[i].first, seqs[i].second)" % (fn.nloc(v), pos, v["name"]))
+                if not amap:
+                    continue
+                size = ty[ty.rindex("[") + 1:-1].strip()
+                n = len(kids(init))
+                if len(amap) != n or not size.isdigit() or int(size) != n or sorted(amap.values()) != list(range(n)) or n < 2 \
+                        or self.seqarr is not None:
+                    raise Undecidable("%s: could not identify the sequence cursors in the array %s" % (fn.nloc(v), v["name"]))
+                self.seqarr, self.arrmap = v["did"], amap
+        return self.seqarr is not None
+
+    def seq_of(self, e, depth=0):
+        r = ref_of(e)
+        if r is not None and r in self.seqvar:
+            return self.seqvar[r]
+        if r is not None and depth < 4:
+            # a reference local bound to a cursor names that cursor (a reference is never re-bound)
+            v = self.ref_local(r)
+            return self.seq_of(kids(v)[0], depth + 1) if v is not None else None
+        if self.seqarr is not None:
+            q = match.index_parts(e)
+            if q and ref_of(q[0]) == self.seqarr:
+                c = fold_int(q[1])
+                return self.arrmap.get(c) if c is not None else None
+        return None
+
+    def ref_local(self, did):
+        """the declaration of the lvalue-reference local did (with its initialiser), else None"""
+        if not hasattr(self, "_refs"):
+            self._refs = {}
+            for z in walk(self.fn.body):
+                ty = (z.get("ty") or "").rstrip() if z["k"] == "VarDecl" else ""
+                if ty.endswith("&") and not ty.endswith("&&") and kids(z) and kids(z)[0] is not None:
+                    self._refs[z.get("did")] = z
+        return self._refs.get(did)
+
+    def op_sem(self, call):
+        did = call["callee"]["did"]
+        if did not in self.ops:
+            f = self.tu.by_did.get(did)
+            if f is None or f.body is None or len(f.params) != 2:
+                raise Undecidable("%s: body of comparison operator not in IR" % self.fn.nloc(call))
+            self.ops[did] = op_table34(f)
+        return self.ops[did]
+
+
 class Explorer34(order.Explorer):
     """order.Explorer with (a) other spellings of the same statements brought to the shape the automaton reads
     (x += 1, x = x + 1, *target++ = v, !size, 0 == size, !(a < b)) and (b) Undecidable instead of a report where the
     report would rest on a statement that was not understood"""
 
     def merge_state(self):
-        return set(self.p.seqvar) | {self.p.target, self.p.size}
+        st = set(self.p.seqvar) | {self.p.target, self.p.size}
+        if getattr(self.p, "seqarr", None) is not None:
+            st.add(self.p.seqarr)
+        return st
 
     # ---- calls of a local closure / a helper function whose body is in the IR are read as their body
     def helper_of(self, e):
@@ -366,8 +633,11 @@ class Explorer34(order.Explorer):
             # the automaton skips declarations: a local that reads or copies the merge state would escape it
             st = self.merge_state()
             for v in kids(s):
-                if v is None or v.get("k") != "VarDecl" or v.get("did") in self.p.seqvar:
+                if v is None or v.get("k") != "VarDecl" or v.get("did") in self.p.seqvar or \
+                        v.get("did") == getattr(self.p, "seqarr", None):
                     continue
+                if self.p.ref_local(v.get("did")) is not None and self.p.seq_of(kids(v)[0]) is not None:
+                    continue                   # Iterator& h = seq[2]: h is read as seq[2] wherever it is used
                 for z in walk(v):
                     if z["k"] == "DeclRefExpr" and z["ref"]["id"] in st:
                         raise Undecidable("%s: local %s is initialised from the merge state" % (self.p.fn.nloc(v), v.get("name")))
@@ -384,20 +654,27 @@ class Explorer34(order.Explorer):
         j = idx + 1
         written = {}
         ret_seen = False
+        blk = []
         while j < len(p.prog) and p.prog[j][0] == "stmt":
             s = p.prog[j][1]
             j += 1
+            # for (int i = 0; i < k; ++i) seqs[i].first = ...: the rounds of a loop with constant bounds, one by one
+            rounds = unroll_const_for(s) if s is not None and s["k"] == "ForStmt" else None
+            blk += rounds if rounds is not None else [s]
+        for s in blk:
             b = match.binop(s, ("=",))
             if b:
                 f = match.field_of(b[1])
                 c = match.call_named(b[2], ("iterator",))
                 if f and f[1] == "first" and c and kids(c):
                     q = match.index_parts(f[0])
-                    if q and ref_of(q[0]) == p.seqs_param and const_int(q[1]) is not None:
+                    if q and ref_of(q[0]) == p.seqs_param and fold_int(q[1]) is not None:
                         x = p.seq_of(kids(c)[0])
                         if x is None:
                             raise Undecidable("%s: object written back in the finish block is not a sequence cursor" % p.fn.nloc(s))
-                        written[const_int(q[1])] = x
+                        if fold_int(q[1]) in written:
+                            raise Undecidable("%s: seqs[%d].first is written twice in the finish block" % (p.fn.nloc(s), fold_int(q[1])))
+                        written[fold_int(q[1])] = x
                         continue
             if s["k"] == "ReturnStmt":
                 e = match.strip_conv(kids(s)[0]) if kids(s) else None
@@ -433,7 +710,7 @@ def merge34_one(ck, tu, fn, name, k):
             return
         reported.add((rule, sig))
         ck.violation(rule, fn.qname, ("guarded:" if guarded else "unguarded:") + sig, msg, fn.nloc(node))
-    prog = order.MergeProgram(fn, tu)
+    prog = MergeProgram34(fn, tu)
     ck.require(prog.k == k, "%s: %d sequence cursors found, expected %d" % (fn.loc, prog.k, k))
     ex = Explorer34(prog, guarded, report)
     n = ex.run()
@@ -623,6 +900,9 @@ def merge2_one(ck, fn):
         return None
 
     def atomize(n, run):
+        ce = closure_expr(fn, n)
+        if ce is not None:
+            return bool(run.truth(ce))
         fc = match.functor_call(n)
         if fc and ref_of(fc[0]) == comp and len(fc[1]) == 2:
             a, b = symval(fc[1][0], run.env, None), symval(fc[1][1], run.env, None)
@@ -701,6 +981,9 @@ def merge2_one(ck, fn):
     ck.require(post, "%s: nothing behind the merge loop" % fn.loc)
 
     def atomize_tail(n, run):
+        ce = closure_expr(fn, n)
+        if ce is not None:
+            return bool(run.truth(ce))
         b = relop(n, ("==", "!=", "<", ">"))
         if b:
             l, r = ref_of(b[1]), ref_of(b[2])
@@ -761,6 +1044,8 @@ def merge2_one(ck, fn):
             raise Undecidable("%s: the statements behind the merge loop end with %s" % (fn.loc, lf["stop"][0]))
         evs = []
         for ev in lf["events"]:
+            if ev[0] == "decl" and "lambda at" in (ev[1].get("ty") or ""):
+                continue          # a closure object is made: nothing happens until it is called
             if ev[0] != "expr":
                 raise Undecidable("%s: unexpected %s behind the merge loop" % (fn.loc, ev[0]))
             evs.append(tail_event(ev[1]))
@@ -794,18 +1079,422 @@ def target_arg(call):
     return a[4] if call["callee"]["name"] == "merge_advance" else a[2]
 
 
+def _bare_ty(t):
+    t = (t or "").strip()
+    if t.startswith("const "):
+        t = t[6:]
+    return t.rstrip("&").strip()
+
+
+_BUILTIN_TYPE_WORDS = {"const", "volatile", "unsigned", "signed", "long", "short", "int", "char", "bool", "float", "double", "void",
+                       "wchar_t", "char8_t", "char16_t", "char32_t", "__int128", "size_t", "ptrdiff_t"}
+
+
+def project_type(ty):
+    """does the type name a class that is not one of the standard library (a class of the project, a local struct, a
+    closure type - also as a template argument)?  Objects of such types run constructors / destructors whose bodies the
+    skeleton does not follow."""
+    import re
+    ty = re.sub(r"\(lambda at [^)]*\)", "", ty or "")     # a closure object by itself does nothing; its calls are what counts
+    for tok in re.findall(r"[A-Za-z_][A-Za-z0-9_]*(?:::[A-Za-z_][A-Za-z0-9_]*)*", ty or ""):
+        if tok in _BUILTIN_TYPE_WORDS or tok.startswith(("std::", "__gnu_cxx::")):
+            continue
+        return True
+    return "(" in (ty or "")
+
+
+def is_pair_member(e):
+    """e is x.first / x.second of a std::pair"""
+    e = strip_casts(e)
+    while e is not None and e["k"] == "ParenExpr" and kids(e):
+        e = strip_casts(kids(e)[0])
+    return e is not None and e["k"] == "MemberExpr" and e.get("member") in ("first", "second") and \
+        (e.get("owner") or "std::pair").startswith("std::pair")
+
+
+def side_effect_free(e):
+    """no ++/--, assignment or call of a function (operators of iterators apart) below e"""
+    for z in walk(e):
+        if match.unop(z, ("++", "--")):
+            return False
+        if z["k"] in ("BinaryOperator", "CompoundAssignOperator", "CXXOperatorCallExpr") and z.get("op") in ASSIGN_OPS:
+            return False
+        if "callee" in z and z["k"] in ("CallExpr", "CXXMemberCallExpr"):
+            return False
+    return True
+
+
+def skel_with_arrays():
+    """skel.Skel in which a local builtin array T a[n] has an address: a[i], *(a + i) name the element ('mem', address
+    + i), a + n is the address behind it; the elements of an initialiser list are stored.  Addresses start at 100 (the
+    caller's sequences are the small numbers)"""
+    from engine import skel
+
+    class SkelArrays(skel.Skel):
+        def ev(self, e):
+            n = match.strip_conv(e)
+            if n is not None and n["k"] == "UnaryOperator" and n.get("op") == "&" and kids(n) and side_effect_free(kids(n)[0]) \
+                    and not is_pair_member(kids(n)[0]):
+                # &a[i], &*p of an object that has an address in the skeleton is that address (a number)
+                isnum = lambda v: isinstance(v, int) and not isinstance(v, bool)
+                key = self.lvalue(kids(n)[0])
+                if isinstance(key, tuple) and key[0] == "mem" and isnum(key[1]):
+                    return key[1]
+                if isinstance(key, tuple) and key[0] == "elem" and isnum(key[2]) and isnum(self.load(key[1])):
+                    return self.load(key[1]) + key[2]
+            try:
+                return super().ev(e)
+            except TypeError:
+                # arithmetic on a value that is not a number (a pointer to an object, an iterator into a container)
+                raise Undecidable("%s: arithmetic on a pointer / iterator not understood at line %s: %s"
+                                  % (self.fn.full, (e or {}).get("l"), dtable.describe(e)[:60]))
+
+        def stmt(self, s):
+            if s is None or s["k"] != "DeclStmt":
+                return super().stmt(s)
+            super().stmt(s)
+            for v in kids(s):
+                # an object of a project type runs a constructor / destructor whose body is not followed
+                if v is not None and v.get("k") == "VarDecl" and getattr(self, "on_object", None) is not None:
+                    ty = (v.get("ty") or "").rstrip()
+                    if project_type(ty) or (ty.endswith(("&", "*")) and kids(v) and any(is_pair_member(z) for z in walk(kids(v)[0]))) \
+                            or not v.get("name"):
+                        self.on_object(v)      # also: a reference to one iterator of a pair, the object of a structured binding
+            for v in kids(s):
+                # a closure object is made: what it captures by copy is fixed now
+                lam = self.closure_of(kids(v)[0]) if v is not None and v.get("k") == "VarDecl" and kids(v) and "lambda at" in (v.get("ty") or "") else None
+                if lam is not None and any(not c.get("byref") for c in lam.get("captures", [])):
+                    if not hasattr(self, "_snaps"):
+                        self._snaps = {}
+                    self._snaps[lam.get("id")] = self.capture(lam)
+            for v in kids(s):
+                ty = (v.get("ty") or "").rstrip() if v is not None and v.get("k") == "VarDecl" else ""
+                if not ty.endswith("]") or ty.count("[") != 1:
+                    continue
+                size = ty[ty.rindex("[") + 1:-1].strip()
+                if not size.isdigit():
+                    continue
+                if not hasattr(self, "arrays"):
+                    self.arrays = {}
+                base = 100 * (len(self.arrays) + 1)
+                if int(size) >= 100 or base >= 900:
+                    continue
+                self.arrays[base] = int(size)
+                self.env[v["did"]] = base
+                init = kids(v)[0] if kids(v) else None
+                if init is not None and init["k"] == "InitListExpr":
+                    for i, el in enumerate(kids(init)):
+                        self.store(("mem", base + i), self.ev(el))
+
+        def inline(self, e, args):
+            r = self.inline_closure(e, args)
+            if r is NotImplemented:
+                r = super().inline(e, args)
+            if r is NotImplemented and getattr(self, "on_uninlined", None) is not None:
+                self.on_uninlined(e)      # a call that is evaluated without its body
+            return r
+
+        def closure_of(self, fx):
+            """the LambdaExpr that made the closure object fx: the expression itself or the initialiser of the local
+            that holds it (a closure object cannot be assigned to)"""
+            fx = strip_casts(fx)
+            while fx is not None and fx["k"] in ("MaterializeTemporaryExpr", "CXXBindTemporaryExpr", "ExprWithCleanups", "ParenExpr",
+                                                 "CXXConstructExpr") and len(kids(fx)) == 1:
+                fx = strip_casts(kids(fx)[0])
+            if fx is None:
+                return None
+            if fx["k"] == "LambdaExpr":
+                return fx
+            r = ref_of(fx)
+            if r is None or self.depth > 8:
+                return None
+            if not hasattr(self, "_decls"):
+                self._decls = {}
+            d = self._decls.get(id(self.fn))
+            if d is None:
+                d = self._decls[id(self.fn)] = {z.get("did"): z for z in walk(self.fn.body) if z["k"] == "VarDecl"}
+            v = d.get(r)
+            if v is None or not kids(v) or (v.get("ty") or "").rstrip().endswith(("&", "*")):
+                return None
+            self.depth += 1
+            try:
+                return self.closure_of(kids(v)[0]) if strip_casts(kids(v)[0]) is not None and strip_casts(kids(v)[0])["k"] != "DeclRefExpr" else None
+            finally:
+                self.depth -= 1
+
+        def inline_closure(self, e, args):
+            """a call of a closure whose lambda captures by reference only runs the body of the lambda on the variables
+            of the enclosing function (the body refers to them by their own declarations)"""
+            if e["k"] != "CXXOperatorCallExpr" or e.get("op") != "()" or not args or self.tu is None or self.depth >= 5:
+                return NotImplemented
+            callee = self.tu.by_did.get(e["callee"].get("did"))
+            lam = self.closure_of(args[0])
+            if callee is None or callee.body is None or callee.kind != "lambda" or lam is None or lam.get("fn") != callee.did:
+                return NotImplemented
+            if any(z["k"] == "This" for z in walk(callee.body)):
+                return NotImplemented
+            # variables captured by copy have, inside the body, the value they had when the closure was made
+            snap = None
+            if any(not c.get("byref") for c in lam.get("captures", [])):
+                direct = self.closure_of(args[0]) is lam and ref_of(args[0]) is None
+                snap = self.capture(lam) if direct else getattr(self, "_snaps", {}).get(lam.get("id"))
+                if snap is None:
+                    return NotImplemented
+            actual = args[1:]
+            if len(actual) != len(callee.params):
+                return NotImplemented
+            saved_alias = dict(self.alias)
+            missing = object()
+            saved_env = {d: self.env.get(d, missing) for d in (snap or {})}
+            for d, v in (snap or {}).items():
+                self.alias.pop(d, None)
+                self.env[d] = v
+            for p_, a in zip(callee.params, actual):
+                ty = (p_.get("ty") or "").rstrip()
+                if ty.endswith("&") and not ty.endswith("&&") and "const" not in ty.split("<")[0]:
+                    key = self.lvalue(a)
+                    if key is None:
+                        self.alias = saved_alias
+                        return NotImplemented
+                    self.alias[p_["did"]] = key
+                elif ty.endswith("&") and self.lvalue(a) is not None:
+                    self.alias[p_["did"]] = self.lvalue(a)
+                else:
+                    self.env[p_["did"]] = self.ev(a)
+            self.depth += 1
+            saved_fn = self.fn
+            self.fn = callee
+            try:
+                self.run(kids(callee.body))
+                ret = None
+            except skel.Return as r_:
+                ret = r_.v
+            finally:
+                self.fn = saved_fn
+                self.depth -= 1
+                self.alias = saved_alias
+                for d, v in saved_env.items():
+                    if snap is not None and not callee.d.get("const"):
+                        snap[d] = self.env.get(d)          # a mutable lambda keeps what it stored in its copy
+                    if v is missing:
+                        self.env.pop(d, None)
+                    else:
+                        self.env[d] = v
+            return ret
+
+        def capture(self, lam):
+            """the values of the variables that the lambda captures by copy, as they are now; None if a capture is not
+            a plain scalar / iterator / container value of the skeleton (an array, *this, an init-capture)"""
+            snap = {}
+            for c in lam.get("captures", []):
+                if c.get("byref"):
+                    continue
+                d = c.get("id")
+                if d is None or c.get("init") or c.get("this"):
+                    return None
+                decl = next((p_ for p_ in self.fn.params if p_["did"] == d), None) or \
+                    next((z for z in walk(self.fn.body) if z["k"] == "VarDecl" and z.get("did") == d), None)
+                if decl is None or (decl.get("ty") or "").rstrip().endswith("]"):
+                    return None
+                snap[d] = self.load(self.alias[d]) if d in self.alias else self.env.get(d)
+            return snap
+    return SkelArrays
+
+
+STD_PURE = ("iterpair_size", "min", "max", "distance", "size", "empty", "begin", "end", "cbegin", "cend", "data", "move",
+            "forward", "next", "prev", "addressof", "__builtin_expect", "front", "back", "at", "capacity", "reserve")
+
+
+def unfollowed_effect(e):
+    """may the call e, which the skeleton evaluates without its body, change an object?  Not: operators of standard
+    iterators / containers, constructions of standard types, selected observers of the standard library."""
+    c = e["callee"]
+    q = c.get("qname") or ""
+    std = q.startswith(("std::", "__gnu_cxx::"))
+    if e["k"] == "CXXOperatorCallExpr":
+        return e.get("op") == "()" or not std
+    if e["k"] in ("CXXConstructExpr", "CXXTemporaryObjectExpr"):
+        return not std
+    if (std and c["name"] in STD_PURE) or q in ("tlx::unused", "tlx::multiway_merge_detail::iterpair_size"):
+        return False
+    return True
+
+
 class SeqVectors:
-    """model of the local containers of sequences during one skeleton evaluation: the value of a container is
-    ('vec', indices of the sequences it holds), an iterator into it is ('it', container, position); what is copied
-    from a container back to the caller's array of sequences is recorded in wb (position -> sequence)"""
+    """model of the whole sequences (pairs of iterators) that are moved around during one skeleton evaluation.
+    The value of a std::vector of sequences is ('vec', indices of the sequences it holds), an iterator into it is
+    ('it', container, position).  A single sequence read from the caller's array is the value ('seq', i, n): sequence
+    i as it was after n merge phases had advanced it; it travels through locals and builtin arrays (skel_with_arrays)
+    like any value.  cur / curver say which sequence (as of which phase) the caller's array holds at each position;
+    what is stored there is also recorded in wb (position -> sequence).  Operations that may reach the caller's
+    array without being followed (calls evaluated without body, objects of project types, member-wise changes of a
+    pair, stores at places that are not understood) are collected in `foreign`: only an evaluation without them is a
+    closed world in which 'nothing was written back' can be concluded."""
 
     def __init__(self, fn, seqs, K):
         self.fn, self.seqs, self.K = fn, seqs, K
         self.wb = {}
+        self.cur = list(range(K))  # which sequence the caller's array holds at each position right now
+        self.ver = [0] * K         # how many merge phases of non-zero length have advanced each sequence so far
+        self.curver = [0] * K      # ... and as of which phase the caller's array holds it at each position
+        self.stale = []            # uses of a copy of a sequence that a later merge phase has advanced (not decided)
+        self.foreign = []          # operations that may change the caller's array in a way this model does not follow
 
     @staticmethod
     def is_it(v):
         return isinstance(v, tuple) and len(v) == 3 and v[0] == "it"
+
+    @staticmethod
+    def is_seq(v):
+        """('seq', i, n): a copy of the whole sequence i (its pair of iterators) as it was after n merge phases"""
+        return isinstance(v, tuple) and len(v) == 3 and v[0] == "seq"
+
+    @property
+    def moved(self):
+        """a position of the caller's array holds another sequence than at the start"""
+        return self.cur != list(range(self.K))
+
+    def put(self, d, x, version=None):
+        """sequence x (as it is after `version` phases; default: as it is now) is stored at position d of the caller's array"""
+        self.wb[d] = x
+        if 0 <= d < self.K:
+            self.cur[d] = x
+            self.curver[d] = self.ver[x] if version is None else version
+
+    def out_of_date(self):
+        """positions of the caller's array that hold a sequence as it was before the last merge phase that advanced it"""
+        return [d for d in range(self.K) if self.curver[d] != self.ver[self.cur[d]]]
+
+    def ident(self, sk, e):
+        """the sequence that the pair e holds: an element of the caller's array (by its position and what was stored
+        there) or a local copy of a whole sequence"""
+        pos = seq_index(sk, e, self.seqs, self.K, by_value=False)
+        if pos is not None:
+            return self.cur[pos]
+        return seq_index(sk, e, self.seqs, self.K)
+
+    def pair_event(self, e, sk):
+        """a whole sequence (the pair of iterators) of the caller's array as a value: reading seqs[i] gives ('seq', the
+        sequence held at position i), which then travels through locals and local arrays like any value of the
+        skeleton; seqs[d] = v stores it at position d and records in wb what is written back"""
+        n = strip_casts(e)
+        if n is None:
+            return NotImplemented
+        q = (n.get("callee") or {}).get("qname") or ""
+        if n["k"] == "CXXOperatorCallExpr" and n.get("op") in ASSIGN_OPS and not q.startswith(("std::", "__gnu_cxx::")):
+            self.foreign.append(n)             # an assignment operator of the project: its body is not followed
+        if n["k"] in ("InitListExpr", "CXXFunctionalCastExpr", "CXXTemporaryObjectExpr", "CXXConstructExpr") and project_type(n.get("ty")):
+            self.foreign.append(n)             # a temporary of a project type: constructor / destructor not followed
+        if n["k"] == "CallExpr" and q in ("std::move", "std::forward") and len(kids(n)) == 1 and \
+                _bare_ty(n.get("ty")).rstrip("&").strip().startswith("std::pair<"):
+            return sk.ev(kids(n)[0])
+        # member-wise changes of a pair (x.first = ..., ++x.first) are not followed
+        w = match.binop(n, ASSIGN_OPS) if n["k"] in ("BinaryOperator", "CompoundAssignOperator", "CXXOperatorCallExpr") else None
+        u = match.unop(n, ("++", "--"))
+        lhs = strip_casts(w[1] if w else u[1] if u else None)
+        while lhs is not None and lhs["k"] == "ParenExpr" and kids(lhs):
+            lhs = strip_casts(kids(lhs)[0])
+        if is_pair_member(lhs) or (lhs is not None and lhs["k"] == "DeclRefExpr" and lhs["ref"].get("kind") == "binding"):
+            # seqs[d].first = c.first, where c is a copy of the sequence that position d holds, writes that sequence
+            # back (the end of a sequence never changes); every other member-wise change is not followed
+            rhs = strip_casts(w[2]) if w and w[0] == "=" else None
+            while rhs is not None and rhs["k"] == "ParenExpr" and kids(rhs):
+                rhs = strip_casts(kids(rhs)[0])
+            if is_pair_member(lhs) and is_pair_member(rhs) and lhs["member"] == rhs["member"] == "first" and \
+                    not lhs.get("arrow") and not rhs.get("arrow") and side_effect_free(lhs) and side_effect_free(rhs):
+                d = seq_index(sk, kids(lhs)[0], self.seqs, self.K, by_value=False)
+                v = sk.ev(kids(rhs)[0]) if d is not None else None
+                if d is not None and self.is_seq(v) and self.cur[d] == v[1]:
+                    if v[2] != self.ver[v[1]]:
+                        self.stale.append("%s: a copy of sequence %d taken before a merge phase is stored in the caller's array after it"
+                                          % (self.fn.nloc(n), v[1]))
+                    self.put(d, v[1], v[2])
+                    return None
+            self.foreign.append(n)
+            return NotImplemented
+        if n["k"] == "UnaryOperator" and n.get("op") == "&" and kids(n) and is_pair_member(kids(n)[0]):
+            self.foreign.append(n)             # a pointer to one iterator of a pair: what is stored through it is not followed
+            return NotImplemented
+        if not _bare_ty(n.get("ty")).startswith("std::pair<"):
+            return NotImplemented
+        b = match.binop(n, ("=",)) if n["k"] in ("BinaryOperator", "CXXOperatorCallExpr") else None
+        if b:
+            # every operand is evaluated exactly once here (the place may be *p++), the right one first
+            v = sk.ev(b[2])
+            pl = self.place(sk, b[1])
+            if pl is None:
+                self.foreign.append(n)         # a pair is stored somewhere: where is not understood
+                return v
+            if pl[0] == "key":
+                sk.store(pl[1], v)             # a local object that holds a whole sequence
+                return v
+            if not self.is_seq(v):
+                raise Undecidable("%s: value stored in %s not understood: %s"
+                                  % (self.fn.nloc(n), "sequence %d of the caller's array" % pl[1] if pl[0] == "pos" else "a container of sequences",
+                                     dtable.describe(b[2])))
+            if v[2] != self.ver[v[1]]:
+                # the copy does not hold what an intervening merge phase consumed; whether that phase moved this
+                # sequence at all depends on the data: not decided (the caller raises, unless it has a finding)
+                self.stale.append("%s: a copy of sequence %d taken before a merge phase is stored %s after it"
+                                  % (self.fn.nloc(n), v[1], "in the caller's array" if pl[0] == "pos" else "in a container"))
+            if pl[0] == "pos":
+                self.put(pl[1], v[1], v[2])
+            else:
+                key, c, i_ = pl[1:]
+                sk.store(key, ("vec", c[:i_] + (v[1],) + c[i_ + 1:]))
+            return v
+        if match.index_parts(n) or match.deref_of(n) is not None:
+            pl = self.place(sk, n)
+            if pl is None:
+                return None
+            if pl[0] == "pos":
+                return ("seq", self.cur[pl[1]], self.curver[pl[1]])
+            if pl[0] == "vec":
+                i_ = pl[2][pl[3]]
+                return ("seq", i_, self.ver[i_])       # what a container holds is what the last phase on it left
+            return sk.load(pl[1])
+        return NotImplemented
+
+    def place(self, sk, e):
+        """where the lvalue e of a whole sequence lives, with every part of e evaluated exactly once (e may be *p++):
+        ('pos', d) position d of the caller's array | ('vec', container, its sequences, index) an element of a
+        container of sequences | ('key', key) another object of the skeleton | None: not understood"""
+        isnum = lambda v: isinstance(v, int) and not isinstance(v, bool)
+        n = strip_casts(e)
+        while n is not None and n["k"] == "ParenExpr" and kids(n):
+            n = strip_casts(kids(n)[0])
+        if n is None:
+            return None
+        key = None
+        d = match.deref_of(n)
+        ip = match.index_parts(n) if d is None else None
+        if d is not None:
+            pv = sk.ev(d)
+            if self.is_it(pv):
+                c = self.content(sk, pv[1])
+                return ("vec", pv[1], c, pv[2]) if c is not None and 0 <= pv[2] < len(c) else None
+            if isinstance(pv, tuple) and len(pv) == 2 and pv[0] == "ptr":
+                key = pv[1]
+            elif isnum(pv):
+                key = ("mem", pv)
+        elif ip:
+            bty = (strip_casts(ip[0]).get("ty") or "").rstrip()
+            if bty.endswith("*") or bty.endswith("]"):
+                a, idx = sk.ev(ip[0]), sk.ev(ip[1])
+                key = ("mem", a + idx) if isnum(a) and isnum(idx) else None
+            else:
+                base, idx = sk.lvalue(ip[0]), sk.ev(ip[1])
+                c = self.content(sk, base) if base is not None else None
+                if c is not None:
+                    return ("vec", base, c, idx) if isnum(idx) and 0 <= idx < len(c) else None
+                key = ("elem", base, idx) if base is not None and isnum(idx) else None
+        else:
+            key = sk.lvalue(n)
+        if isinstance(key, tuple) and ((key[0] == "elem" and key[1] == self.seqs) or key[0] == "mem") and isnum(key[-1]) and 0 <= key[-1] < self.K:
+            return ("pos", key[-1])
+        if isinstance(key, tuple) and key[0] == "elem" and key[1] == self.seqs:
+            return None                        # outside the caller's array
+        return ("key", key) if key is not None else None
 
     def content(self, sk, key):
         v = sk.load(key)
@@ -813,6 +1502,8 @@ class SeqVectors:
 
     def alg(self, op, a, b, e):
         isnum = lambda v: isinstance(v, int) and not isinstance(v, bool)
+        if self.is_seq(a) or self.is_seq(b):
+            return None          # whole sequences are data: comparing two of them has no value in the skeleton
         if self.is_it(a) and isnum(b) and op in ("+", "-"):
             return ("it", a[1], a[2] + (b if op == "+" else -b))
         if isnum(a) and self.is_it(b) and op == "+":
@@ -825,17 +1516,61 @@ class SeqVectors:
         """the sequences in [a, b): of the caller's array (two numbers) or of a container (two iterators)"""
         isnum = lambda v: isinstance(v, int) and not isinstance(v, bool)
         if isnum(a) and isnum(b) and 0 <= a <= b <= self.K:
-            return tuple(range(a, b))
+            return tuple(self.cur[a:b])
+        if isnum(a) and isnum(b):
+            # a range of a local builtin array that holds copies of whole sequences
+            for base, n in getattr(sk, "arrays", {}).items():
+                if base <= a <= b <= base + n:
+                    c = tuple(sk.load(("mem", x)) for x in range(a, b))
+                    if all(self.is_seq(x) for x in c):
+                        for x in c:
+                            if x[2] != self.ver[x[1]]:
+                                self.stale.append("%s: a copy of sequence %d taken before a merge phase is used after it" % (self.fn.loc, x[1]))
+                        return tuple(x[1] for x in c)
+                    return None
         if self.is_it(a) and self.is_it(b) and a[1] == b[1]:
             c = self.content(sk, a[1])
             if c is not None and 0 <= a[2] <= b[2] <= len(c):
                 return c[a[2]:b[2]]
         return None
 
+    def phase(self, sk, a, b, n):
+        """a merge phase of length n runs over the sequences in [a, b): -> (these sequences, does it run on the caller's
+        array itself); the objects in the range then hold the advanced sequences, every other copy is out of date"""
+        isnum = lambda v: isinstance(v, int) and not isinstance(v, bool)
+        c = self.span(sk, a, b)
+        direct = isnum(a) and isnum(b) and 0 <= a <= b <= self.K
+        if c is not None and n > 0:
+            if direct:
+                for d in range(a, b):
+                    if self.curver[d] != self.ver[self.cur[d]]:
+                        self.stale.append("%s: a copy of sequence %d taken before a merge phase is used after it" % (self.fn.loc, self.cur[d]))
+            for i in c:
+                self.ver[i] += 1
+            if direct:
+                for d in range(a, b):
+                    self.curver[d] = self.ver[self.cur[d]]
+            if isnum(a) and not direct:
+                for x in range(a, b):
+                    i = sk.load(("mem", x))[1]
+                    sk.store(("mem", x), ("seq", i, self.ver[i]))
+        return c, direct
+
     def event(self, e, sk):
         fn = self.fn
         nm = e["callee"]["name"]
         args = [a for a in kids(e) if a is not None and a["k"] != "DefaultArg"]
+        if e["k"] == "CXXOperatorCallExpr" and e.get("op") in ("++", "--", "+=", "-=") and args:
+            # an iterator into a container of sequences is stepped
+            key = sk.lvalue(args[0])
+            old = sk.load(key) if key is not None else None
+            if self.is_it(old):
+                step = 1 if e["op"] in ("++", "--") else (sk.ev(args[1]) if len(args) == 2 else None)
+                if not isinstance(step, int) or isinstance(step, bool):
+                    raise Undecidable("%s: step of an iterator into a container of sequences not understood" % fn.nloc(e))
+                new = ("it", old[1], old[2] + (step if e["op"] in ("++", "+=") else -step))
+                sk.store(key, new)
+                return old if e["op"] in ("++", "--") and len(args) == 2 else new
         if e["k"] in ("CXXConstructExpr", "CXXTemporaryObjectExpr") and (e.get("ty") or "").startswith("std::vector<"):
             if not args:
                 return ("vec", ())
@@ -868,7 +1603,7 @@ class SeqVectors:
                 rest = args[2:] if nm == "insert" else args[1:]
                 new = None
                 if len(rest) == 1:
-                    i_ = seq_index(sk, rest[0], self.seqs, self.K)
+                    i_ = self.ident(sk, rest[0])
                     new = (i_,) if i_ is not None else None
                 elif len(rest) == 2:
                     new = self.span(sk, sk.ev(rest[0]), sk.ev(rest[1]))
@@ -888,6 +1623,17 @@ class SeqVectors:
             return None
         if e["k"] == "CallExpr" and nm in ("copy", "copy_n", "move") and len(args) == 3:
             a, b, d = sk.ev(args[0]), sk.ev(args[1]), sk.ev(args[2])
+            isnum = lambda v: isinstance(v, int) and not isinstance(v, bool)
+            in_array = isnum(a) and any(base <= a <= base + n for base, n in getattr(sk, "arrays", {}).items())
+            if in_array and nm == "copy_n" and isnum(b):
+                b = a + b
+            if in_array and isnum(b) and isnum(d) and 0 <= d <= self.K:
+                c = self.span(sk, a, b)
+                if c is None or d + len(c) > self.K:
+                    raise Undecidable("%s: copy out of an array of sequences not understood" % fn.nloc(e))
+                for j, x in enumerate(c):
+                    self.put(d + j, x)
+                return d + len(c)
             if self.is_it(a):
                 if nm == "copy_n" and isinstance(b, int) and not isinstance(b, bool):
                     b = ("it", a[1], a[2] + b)
@@ -895,10 +1641,17 @@ class SeqVectors:
                 if c is None or not isinstance(d, int) or isinstance(d, bool):
                     raise Undecidable("%s: copy out of a container of sequences not understood" % fn.nloc(e))
                 for j, x in enumerate(c):
-                    self.wb[d + j] = x
+                    self.put(d + j, x)
                 return d + len(c)
+            self.foreign.append(e)                 # a copy whose source is not understood
             return None
         return NotImplemented
+
+    def uninlined(self, e):
+        """a call that the skeleton evaluates without its body: unless it cannot change any object it may be the place
+        where sequences are written back"""
+        if unfollowed_effect(e):
+            self.foreign.append(e)
 
 
 def check_combined(ck, tu):
@@ -914,6 +1667,7 @@ def combined_one(ck, fn, name):
     TAIL-ORDER is read off the same evaluations: which two sequences the 3-way tail merges for each min_seq, and where
     the 4-way variant removes and re-inserts the exhausted sequence."""
     from engine import skel
+    SkelArrays = skel_with_arrays()
     seqsp, seqse, targetp, sizep = [fn.params[i]["did"] for i in (0, 1, 2, 3)]
     K = 3 if "3" in name else 4 if "4" in name else 5
     def phase_kind(c):
@@ -931,6 +1685,8 @@ def combined_one(ck, fn, name):
     npts = 0
     tails = []        # (min_seq, (i, j), node): the two sequences handed to the two-way tail merge
     moves = []        # (min_seq, sequences handed to a guarded phase of non-zero length, what was written back) per evaluation
+    stale = []        # out-of-date copies of sequences met in some evaluation
+    unfollowed = None # an operation the skeleton did not follow, met in an evaluation whose phases do not match
     for S in range(0, 5):
         for T in range(max(S, 1), 7):
             sizes = [T // K + (1 if i < T % K else 0) for i in range(K)]
@@ -940,6 +1696,10 @@ def combined_one(ck, fn, name):
                     vecs = SeqVectors(fn, seqsp, K)
 
                     def event(e, sk, O=O, T=T, m=m, sizes=sizes, phases=phases, vecs=vecs):
+                        if K == 4:
+                            r_ = vecs.pair_event(e, sk)
+                            if r_ is not NotImplemented:
+                                return r_
                         if "callee" not in e:
                             return NotImplemented
                         r_ = spaceship(e, sk)
@@ -954,7 +1714,7 @@ def combined_one(ck, fn, name):
                             return O
                         if nm == "iterpair_size" and kids(e):
                             i_ = seq_index(sk, kids(e)[0], seqsp, K)
-                            if i_ is None:
+                            if i_ is None or vecs.moved:
                                 raise Undecidable("%s: sequence measured by iterpair_size not understood: %s" % (fn.nloc(e), dtable.describe(kids(e)[0])))
                             return sizes[i_]
                         if nm == "accumulate":
@@ -973,12 +1733,14 @@ def combined_one(ck, fn, name):
                             t_, n_ = sk.ev(target_arg(e)), sk.ev(size_arg(e))
                             if not isinstance(t_, int) or not isinstance(n_, int):
                                 raise Undecidable("%s: target / length of a merge phase not understood at line %s" % (fn.loc, e.get("l")))
-                            phases.append((phase_kind(e), t_, n_, e, vecs.span(sk, sk.ev(kids(e)[0]), sk.ev(kids(e)[1])) if K == 4 else None))
+                            phases.append((phase_kind(e), t_, n_, e) + (vecs.phase(sk, sk.ev(kids(e)[0]), sk.ev(kids(e)[1]), n_) if K == 4 else (None, False)))
                             seen_kinds.add(phase_kind(e))
                             return t_ + max(n_, 0)
                         return NotImplemented
-                    sk = skel.Skel(fn, {sizep: S, targetp: BASE, seqsp: 0, seqse: K}, None, event, max_iter=16)
+                    sk = SkelArrays(fn, {sizep: S, targetp: BASE, seqsp: 0, seqse: K}, None, event, max_iter=16)
                     sk.alg = vecs.alg
+                    sk.on_uninlined = vecs.uninlined
+                    sk.on_object = vecs.foreign.append
                     try:
                         sk.run(kids(fn.body))
                         ret = None
@@ -987,9 +1749,13 @@ def combined_one(ck, fn, name):
                     if not isinstance(ret, int) or isinstance(ret, bool):
                         raise Undecidable("%s: value returned by the combined merge not understood" % fn.loc)
                     npts += 1
+                    stale += vecs.stale
                     for ph in phases:
                         if ph[0] == "G" and ph[2] != 0:
-                            moves.append((m, ph[4], dict(vecs.wb), ph[3]))
+                            moves.append((m, ph[4], dict(vecs.wb), ph[3], ph[5], list(vecs.cur), list(vecs.foreign)))
+                    if vecs.out_of_date() and not vecs.foreign:
+                        stale.append("%s: position %d of the caller's array is written before the last merge phase that advances its sequence"
+                                     % (fn.loc, vecs.out_of_date()[0]))
                     if O == -1:
                         want = [("G", BASE, S)]
                     else:
@@ -998,8 +1764,15 @@ def combined_one(ck, fn, name):
                     # a phase of length 0 merges nothing: calling it or leaving it out is the same
                     want = [w for w in want if w[2] != 0]
                     got = [(ph[0], ph[1], ph[2]) for ph in phases if ph[2] != 0]
-                    if (got != want or ret != BASE + S) and bad is None:
+                    if (got != want or ret != BASE + S) and vecs.foreign:
+                        # a call that was evaluated without its body (or an object of a project type) may run a phase
+                        # or change a length through a reference: this evaluation decides nothing
+                        unfollowed = unfollowed or vecs.foreign[0]
+                    elif (got != want or ret != BASE + S) and bad is None:
                         bad = (S, T, O, m, got, want, ret, phases[0][3] if phases else fn.body)
+    if not bad and unfollowed is not None:
+        raise Undecidable("%s: the phases of the combined merge are not decided: %s is evaluated without its body"
+                          % (fn.nloc(unfollowed), dtable.describe(unfollowed)[:80]))
     if not bad:
         ck.require(seen_kinds == {"U", "G"}, "%s: could not identify the unguarded and guarded phases" % fn.loc)
     if bad:
@@ -1038,23 +1811,37 @@ def combined_one(ck, fn, name):
         wrong = None
         if not moves:
             raise Undecidable("%s: how the exhausted sequence is left out and put back is not understood" % fn.loc)
-        for m_, snap, wb, node in moves:
+        for m_, snap, wb, node, direct, final, foreign in moves:
             want = tuple(i for i in range(K) if i != m_)
             if snap is None:
                 raise Undecidable("%s: the sequences handed to the guarded phase are not understood" % fn.nloc(node))
             if snap != want:
                 wrong = wrong or (m_, "the guarded phase merges sequences %s" % list(snap))
                 continue
+            if direct:
+                # the phase ran on the caller's array itself (the sequences were moved inside it): nothing is to be
+                # written back, but every sequence must be at its own position again in the end
+                back = [(i, final[i]) for i in range(K) if final[i] != i]
+                if back:
+                    wrong = wrong or (m_, "position %d of the caller's array ends up holding sequence %d" % back[0])
+                continue
             back = [(i, wb[i]) for i in range(K) if i in wb and wb[i] != i]
             if back:
                 wrong = wrong or (m_, "sequence %d is written back to position %d" % (back[0][1], back[0][0]))
                 continue
-            for i in want:
-                if wb.get(i) is None:
-                    raise Undecidable("%s: how the sequences of the guarded phase are written back is not understood" % fn.loc)
+            missing = [i for i in want if wb.get(i) is None]
+            if missing and len(missing) == len(want) and not foreign:
+                # closed world: the phase advanced copies (it merged at least one element, so one of them moved); every
+                # call of this evaluation was followed or cannot store anything, no pair was stored at a place that is
+                # not understood, no member of a pair was changed: nothing reached the caller's array
+                wrong = wrong or (m_, "the guarded phase merges copies of sequences %s and none of them is written back to the caller's array" % list(want))
+            elif missing:
+                raise Undecidable("%s: how the sequences of the guarded phase are written back is not understood" % fn.loc)
         if wrong:
             ck.violation("TAIL-ORDER", fn.qname, "one-missing", "the sequence removed before the guarded phase is not re-inserted at its own index "
                          "(min_seq = %d: %s)" % wrong, fn.loc)
+        elif stale:
+            raise Undecidable(stale[0])
         else:
             ck.ok("TAIL-ORDER", fn.qname, "exhausted sequence min_seq is removed and re-inserted at the same index")
 
@@ -1125,8 +1912,13 @@ def prepare_one(ck, fn):
                 used.append((b[1], a[1]))
                 return None
             return NotImplemented
-        sk = skel.Skel(fn, {minseq: m, seqs_b: 0, seqs_e: K}, None, event)
+        sk = skel_with_arrays()(fn, {minseq: m, seqs_b: 0, seqs_e: K}, None, event)
         sk.alg = alg
+        # calls evaluated without their body (closures that capture by value, functions outside this file) and objects
+        # of project types may compute a split point in a way the evaluation does not follow
+        sk.on_uninlined = lambda e, foreign=foreign: foreign.append(e["callee"]["name"]) if unfollowed_effect(e) and \
+            e["callee"]["name"] not in ("upper_bound", "lower_bound") else None
+        sk.on_object = lambda v, foreign=foreign: foreign.append("the constructor of " + (v.get("name") or "a local"))
         try:
             sk.run(frag)
         except skel.Return:
@@ -1238,7 +2030,8 @@ def dispatch_one(ck, fn):
                         if c["name"] not in HARMLESS_CALLS and not any(x is e for x in other):
                             other.append(e)
                     return NotImplemented
-                sk = skel.Skel(fn, {seqs_b: 0, seqs_e: kv, mw: a}, None, event)
+                sk = skel_with_arrays()(fn, {seqs_b: 0, seqs_e: kv, mw: a}, None, event)
+                sk.on_uninlined = lambda e, other=other: other.append(e) if unfollowed_effect(e) and not any(x is e for x in other) else None
                 try:
                     sk.run(kids(fn.body))
                 except skel.Return:
@@ -1668,6 +2461,7 @@ class LTFlow:
             if hit:
                 return dedupe(out)
         # anything else must not touch the tree or the output position
+        self.check_calls(e0)
         for z in walk(e0):
             if z["k"] == "LambdaExpr":
                 continue
@@ -1726,6 +2520,8 @@ class LTFlow:
         init = kids(v)[0] if kids(v) else None
         if v["did"] == self.lt or init is None:
             return states
+        if "lambda at" not in (v.get("ty") or ""):
+            self.check_calls(init)
         if self.ltcall(match.strip_conv(init), ("min_source",)):
             if self.src is not None and self.src != v["did"]:
                 raise ir.AnalysisBroken("%s: two winner variables" % fn.full)
@@ -1775,6 +2571,7 @@ class LTFlow:
         for z in walk(c):
             if self.ltcall(z, ("min_source", "delete_min_insert", "init", "insert_start")):
                 raise ir.AnalysisBroken("%s: loser tree used inside a condition at line %s" % (self.fn.full, z.get("l")))
+        self.check_calls(c)
         pend = list(states)
         while pend:
             st = pend.pop()
@@ -1901,7 +2698,93 @@ class LTFlow:
             return dedupe(exits), [], []
         if k in ("SwitchStmt", "GotoStmt", "LabelStmt", "CXXTryStmt"):
             raise ir.AnalysisBroken("%s: %s in a loser-tree driver" % (self.fn.full, k))
+        inl = self.closure_body(s)
+        if inl is not None:
+            return self.block(inl, states)
         return self.expr(s, states), [], []
+
+    # ---- closures and helpers
+    NOT_FOLLOWED_OK = ("tlx::unused", "tlx::multiway_merge_detail::iterpair_size")
+
+    def check_calls(self, e):
+        """a call of a closure or of a project function with a body, other than the members of the tree (which the
+        protocol reads), runs statements this analysis does not see: they may emit, advance or feed"""
+        tu = getattr(self.fn, "tu", None)
+        for z in walk(e):
+            if "callee" not in z:
+                continue
+            if z["k"] == "CXXOperatorCallExpr" and z.get("op") == "()" and kids(z) and \
+                    "lambda at" in ((strip_casts(kids(z)[0]) or {}).get("ty") or ""):
+                raise ir.AnalysisBroken("%s: the body of the closure called at line %s is not followed" % (self.fn.full, z.get("l")))
+            if z.get("member_call") and kids(z) and ref_of(kids(z)[0]) == self.lt:
+                continue
+            f = tu.by_did.get(z["callee"].get("did")) if tu is not None else None
+            if f is not None and f.body is not None and f.kind not in ("ctor", "dtor") and f.qname not in self.NOT_FOLLOWED_OK \
+                    and z["k"] in ("CallExpr", "CXXMemberCallExpr"):
+                raise ir.AnalysisBroken("%s: the body of %s called at line %s is not followed" % (self.fn.full, f.name, z.get("l")))
+
+    def closure_body(self, s):
+        """the statements run by the expression statement s if it is a call of a closure whose lambda captures by
+        reference only: the body of the lambda, its parameters replaced by the (plain) arguments; None if s is no such
+        call.  The body works on the variables of this function (it refers to them by their own declarations)."""
+        n = strip_casts(s)
+        while n is not None and n["k"] in ("ExprWithCleanups", "ParenExpr") and kids(n):
+            n = strip_casts(kids(n)[0])
+        tu = getattr(self.fn, "tu", None)
+        if n is None or tu is None or n["k"] != "CXXOperatorCallExpr" or n.get("op") != "()" or not kids(n):
+            return None
+        if not hasattr(self, "_inl"):
+            self._inl = {}
+        if id(n) in self._inl:
+            return self._inl[id(n)][1]
+        fx = strip_casts(kids(n)[0])
+        while fx is not None and fx["k"] in ("MaterializeTemporaryExpr", "CXXBindTemporaryExpr", "ExprWithCleanups", "ParenExpr") and kids(fx):
+            fx = strip_casts(kids(fx)[0])
+        lam = fx if fx is not None and fx["k"] == "LambdaExpr" else None
+        if lam is None and ref_of(fx) is not None:
+            v = local_decl(self.fn, ref_of(fx))
+            init = match.strip_conv(kids(v)[0]) if v is not None and kids(v) and not (v.get("ty") or "").rstrip().endswith(("&", "*")) else None
+            while init is not None and init["k"] in ("MaterializeTemporaryExpr", "CXXBindTemporaryExpr", "ExprWithCleanups", "ParenExpr") and kids(init):
+                init = match.strip_conv(kids(init)[0])
+            lam = init if init is not None and init["k"] == "LambdaExpr" else None
+        f = tu.by_did.get(n["callee"].get("did"))
+        if lam is None or f is None or f.body is None or f.kind != "lambda" or lam.get("fn") != f.did:
+            return None
+        where = "%s: closure called at line %s" % (self.fn.full, n.get("l"))
+        if any(not c.get("byref") for c in lam.get("captures", [])):
+            raise ir.AnalysisBroken(where + " captures by copy")
+        args = kids(n)[1:]
+        if len(args) != len(f.params):
+            raise ir.AnalysisBroken(where + " with %d arguments for %d parameters" % (len(args), len(f.params)))
+        sub = {}
+        for prm, a in zip(f.params, args):
+            a0 = strip_casts(a)
+            ty = (prm.get("ty") or "").rstrip()
+            byref = ty.endswith("&") and not ty.endswith("&&")
+            if a0 is None or a0["k"] not in ("DeclRefExpr", "IntegerLiteral", "CXXBoolLiteralExpr") or \
+                    (not byref and (writes_to(f.body, prm["did"]) or (a0["k"] == "DeclRefExpr" and writes_to(f.body, a0["ref"]["id"])))):
+                raise ir.AnalysisBroken(where + ": argument %s is not a plain variable that the body leaves alone" % dtable.describe(a))
+            sub[prm["did"]] = a0
+        stmts = [x for x in kids(f.body)] if f.body["k"] == "CompoundStmt" else [f.body]
+        if stmts and stmts[-1] is not None and stmts[-1]["k"] == "ReturnStmt":
+            rv = kids(stmts[-1])[0] if kids(stmts[-1]) else None
+            stmts = stmts[:-1] + ([rv] if rv is not None else [])
+        for x in stmts:
+            for z in walk(x):
+                if z["k"] in ("ReturnStmt", "GotoStmt", "LabelStmt", "This"):
+                    raise ir.AnalysisBroken(where + ": %s inside the body" % z["k"])
+
+        def repl(x):
+            if x is None:
+                return None
+            if x["k"] == "DeclRefExpr" and x["ref"]["id"] in sub:
+                return sub[x["ref"]["id"]]
+            if "ch" in x:
+                return dict(x, ch=[repl(c) for c in x["ch"]])
+            return x
+        body = [repl(x) for x in stmts] if sub else stmts
+        self._inl[id(n)] = (n, body)             # kept: the statements of one call site are the same objects on every visit
+        return body
 
 
 def strip_post(d):
@@ -2054,6 +2937,9 @@ def bubble_one(ck, fn):
 
     def make_atomize(extra=None):
         def atomize(n, run):
+            ce = closure_expr(fn, n)
+            if ce is not None:
+                return bool(run.truth(ce))
             if extra:
                 r = extra(n)
                 if r is not None:
